@@ -239,6 +239,70 @@ Proof.
   - split; [apply settle_in; exact H1|]. rewrite settle_after. exact H2.
 Qed.
 
+(* runtime.Goexit makes the recover points of the goroutine inert (`notry`): the table entry is not concerned *)
+Lemma notry_in n : forall K cur, frames_in n cur K -> frames_in n cur (notry K).
+Proof.
+  induction K as [|f K IH]; intros cur H; cbn [notry]; [exact H|].
+  destruct f as [env ps|xs| |cfo|cl]; cbn [frames_in] in *.
+  - destruct H as (H1 & H2 & H3). splits; auto.
+  - destruct H as (H1 & H2). split; auto.
+  - apply IH. exact H.
+  - contradiction.
+  - destruct H as (H1 & H2). split; auto.
+Qed.
+
+Lemma notry_after : forall K cur, tbl_after (notry K) cur = tbl_after K cur.
+Proof.
+  induction K as [|f K IH]; intros cur; cbn [notry]; [reflexivity|].
+  destruct f as [env ps|xs| |cfo|cl]; cbn [tbl_after]; apply IH.
+Qed.
+
+Lemma notry_ok n K cur : frames_ok n cur K -> frames_ok n cur (notry K).
+Proof. intros [H1 H2]. split; [apply notry_in; exact H1|rewrite notry_after; exact H2]. Qed.
+
+Lemma exit_stack_ok n p K cur : frames_ok n cur K -> frames_ok n cur (exit_stack p K).
+Proof. unfold exit_stack. destruct (is_goexit p); [apply notry_ok|auto]. Qed.
+
+Lemma notry_app X Y : notry (X ++ Y) = notry X ++ notry Y.
+Proof.
+  induction X as [|f X IH]; cbn [app notry]; [reflexivity|].
+  destruct f; cbn [app]; rewrite ?IH; reflexivity.
+Qed.
+
+Lemma notry_idem K : notry (notry K) = notry K.
+Proof.
+  induction K as [|f K IH]; cbn [notry]; [reflexivity|].
+  destruct f; cbn [notry]; rewrite ?IH; auto.
+Qed.
+
+Lemma notry_no_try : forall K, ~ In KTry (notry K).
+Proof.
+  induction K as [|f K IH]; cbn [notry]; [intros []|].
+  destruct f; try (intros [H|H]; [discriminate|exact (IH H)]). exact IH.
+Qed.
+
+(* where an unwinding stops when the stack holds no recover point: at a deferred function (still unwinding), at the
+   goroutine epilogue, or at the end of the stack - never in normal mode in front of a statement *)
+Definition exit_stop (r : bool * list frame) : Prop :=
+  match snd r with
+  | [] => fst r = true
+  | KDefer _ :: _ => fst r = true
+  | KEnd _ :: _ => fst r = false
+  | _ => False
+  end.
+
+Lemma unwind_no_try : forall K, ~ In KTry K -> exit_stop (unwind K) /\ ~ In KTry (snd (unwind K)).
+Proof.
+  induction K as [|f K IH]; intros Hn; cbn [unwind].
+  - split; [reflexivity|exact Hn].
+  - destruct f as [env ps|xs| |cfo|cl]; cbn [exit_stop fst snd].
+    + apply IH. intros H. apply Hn. right. exact H.
+    + split; [reflexivity|exact Hn].
+    + exfalso. apply Hn. left. reflexivity.
+    + apply IH. intros H. apply Hn. right. exact H.
+    + split; [reflexivity|exact Hn].
+Qed.
+
 (* ---- the deferred functions really have the effect `dact_tbl` ---------------------------------- *)
 
 (* shared states that differ only in the table entry of g, and possibly in more contexts/loaders *)
@@ -483,7 +547,7 @@ Lemma exec_stmt_ok g env p s :
   res_ok g s (exec_stmt g env p s).
 Proof.
   intros Hg Hcur Henv.
-  destruct p as [lbl try body|lbl ce body|lbl le body|lbl body|lbl body|body|body|k v|k|l| |lbl le|n v|lbl| ];
+  destruct p as [lbl try body|lbl ce body|lbl le body|lbl body|lbl body|body|body|k v|k|l| |lbl le|n v|lbl| | ];
     cbn [exec_stmt].
   - (* PDo *)
     unfold alloc_ctx at 1. cbv beta iota zeta. cbn [with_cheap tls cheap lheap].
@@ -589,6 +653,8 @@ Proof.
       apply nth_error_None in Ea. inversion Henv; subst. lia.
   - (* PPanic *)
     apply res_ok_raise; [auto|discriminate].
+  - (* PGoexit *)
+    apply res_ok_raise; [auto|discriminate].
 Qed.
 
 (* ---- one step of goroutine g --------------------------------------------------------------------- *)
@@ -609,8 +675,10 @@ Lemma step_g_ok g s st :
   (forall ch, sp = Some ch -> gstack_ok (length (cheap s1)) None (g_stack ch) /\ g_trace ch = []) /\
   (* the shape of the new stack: the frames X1 pushed by the step, above the continuation of the old top frame *)
   (forall f K0, g_stack st = f :: K0 -> is_inner f = true ->
-     exists b X1, (g_panic st1, g_stack st1) = resume b (X1 ++ ktail f K0) /\ inner X1 /\
-                  tbl_after X1 (tl_find g (tls s1)) = tbl_after [f] (tl_find g (tls s))).
+     exists b X1 K1, (g_panic st1, g_stack st1) = resume b (X1 ++ K1) /\ inner X1 /\
+                  tbl_after X1 (tl_find g (tls s1)) = tbl_after [f] (tl_find g (tls s)) /\
+                  (* the frames below: as they were, or without their recover points (runtime.Goexit) *)
+                  (K1 = ktail f K0 \/ K1 = notry (ktail f K0))).
 Proof.
   intros Hg Hst Htr. unfold step_g.
   destruct (g_stack st) as [|f K] eqn:EK.
@@ -623,7 +691,7 @@ Proof.
         destruct (resume (g_panic st) K) as [pn K'] eqn:ER.
         splits; auto; [|intros ch H; discriminate|].
         -- cbn [g_stack]. apply frames_ok_gstack. eapply resume_frames; eauto.
-        -- intros f K0 E _. inversion E; subst f K0. exists (g_panic st), []. cbn [g_panic g_stack app ktail tbl_after].
+        -- intros f K0 E _. inversion E; subst f K0. exists (g_panic st), [], K. cbn [g_panic g_stack app ktail tbl_after].
            splits; auto. reflexivity.
       * (* a statement *)
         cbn [gstack_ok] in Hst. change (KSeq env (p :: ps) :: K) with ([KSeq env (p :: ps)] ++ K) in Hst.
@@ -631,20 +699,21 @@ Proof.
         destruct Hin as (Hcur & Henv & _).
         pose proof (exec_stmt_ok g env p s Hg Hcur Henv) as R.
         set (r := exec_stmt g env p s) in *.
-        destruct (resume (r_panic r) (r_push r ++ KSeq env ps :: K)) as [pn K'] eqn:ER.
+        destruct (resume (r_panic r) (r_push r ++ KSeq env ps :: exit_stack p K)) as [pn K'] eqn:ER.
         destruct R as [Rsh Rpush Rafter Rinner Rspawn Rev].
-        assert (HK1 : frames_ok (length (cheap (r_sh r))) (tl_find g (tls (r_sh r))) (r_push r ++ KSeq env ps :: K)).
+        assert (HK1 : frames_ok (length (cheap (r_sh r))) (tl_find g (tls (r_sh r))) (r_push r ++ KSeq env ps :: exit_stack p K)).
         { apply frames_ok_app. split; [exact Rpush|]. rewrite Rafter.
-          change (KSeq env ps :: K) with ([KSeq env ps] ++ K). apply frames_ok_app. cbn [tbl_after frames_in].
+          change (KSeq env ps :: exit_stack p K) with ([KSeq env ps] ++ exit_stack p K). apply frames_ok_app. cbn [tbl_after frames_in].
           split; [splits; auto; eapply Forall_lt_mono; [|exact Henv]; apply (ss_cheap _ _ _ Rsh)|].
-          eapply frames_ok_mono; [|exact HK]. apply (ss_cheap _ _ _ Rsh). }
+          apply exit_stack_ok. eapply frames_ok_mono; [|exact HK]. apply (ss_cheap _ _ _ Rsh). }
         splits; auto.
         -- cbn [g_stack]. apply frames_ok_gstack. eapply resume_frames; eauto.
         -- cbn [g_trace]. apply Forall_app. split; [apply Forall_rev; exact Rev|exact Htr].
         -- intros ch Hch. destruct (r_spawn r) as [fs|] eqn:Efs; [|discriminate].
            inversion Hch; subst ch. cbn [g_stack g_trace]. split; auto.
-        -- intros f K0 E _. inversion E; subst f K0. exists (r_panic r), (r_push r).
+        -- intros f K0 E _. inversion E; subst f K0. exists (r_panic r), (r_push r), (KSeq env ps :: exit_stack p K).
            cbn [g_panic g_stack ktail tbl_after]. splits; auto.
+           unfold exit_stack. destruct (is_goexit p); [right; reflexivity|left; reflexivity].
     + (* the deferred functions of a scope *)
       cbn [gstack_ok] in Hst. change (KDefer xs :: K) with ([KDefer xs] ++ K) in Hst.
       apply frames_ok_app in Hst. destruct Hst as [Hin HK]. cbn [tbl_after frames_in] in Hin, HK.
@@ -654,7 +723,7 @@ Proof.
       destruct (resume (g_panic st || negb true) K) as [pn K'] eqn:ER.
       splits; auto; [|intros ch H; discriminate|].
       * cbn [g_stack]. apply frames_ok_gstack. rewrite P2, P4. eapply resume_frames; eauto.
-      * intros f K0 E _. inversion E; subst f K0. exists (g_panic st || negb true), [].
+      * intros f K0 E _. inversion E; subst f K0. exists (g_panic st || negb true), [], K.
         cbn [g_panic g_stack app ktail tbl_after]. splits; auto. reflexivity.
     + (* a recover point on top (not reachable) *)
       cbn [gstack_ok] in Hst. change (KTry :: K) with ([KTry] ++ K) in Hst.
@@ -662,7 +731,7 @@ Proof.
       destruct (resume (g_panic st) K) as [pn K'] eqn:ER.
       splits; auto; [|intros ch H; discriminate|].
       * cbn [g_stack]. apply frames_ok_gstack. eapply resume_frames; eauto.
-      * intros f K0 E _. inversion E; subst f K0. exists (g_panic st), []. cbn [g_panic g_stack app ktail tbl_after].
+      * intros f K0 E _. inversion E; subst f K0. exists (g_panic st), [], K. cbn [g_panic g_stack app ktail tbl_after].
         splits; auto. reflexivity.
     + (* the prologue of a forked goroutine *)
       cbn [gstack_ok] in Hst. destruct Hst as [Hcf HK].
@@ -927,14 +996,16 @@ Definition left_scope (g : gid) (R : list frame) (c : config) : Prop :=
   exists st b, nth_error (gs c) g = Some st /\ (g_panic st, g_stack st) = resume b R.
 
 (* along the schedule, goroutine g stays at / inside the statement until the step that leaves it, and at that
-   moment its table entry is t0 *)
+   moment its table entry is t0.  When runtime.Goexit is called - inside the statement or by the statement itself -
+   the continuation R loses its recover points (`notry R`: what is still to run of it are its deferred functions and
+   the goroutine epilogue); the statement is then left to `resume true (notry R)`. *)
 Fixpoint scope_run (g : gid) (S0 R : list frame) (t0 : option table) (sched : list gid) (c : config) : Prop :=
   match sched with
   | [] => True
   | h :: sched' =>
     let c1 := step h c in
-    ((at_start g S0 c1 \/ inside g R c1) /\ scope_run g S0 R t0 sched' c1) \/
-    (left_scope g R c1 /\ tl_find g (tls (sh c1)) = t0)
+    ((at_start g S0 c1 \/ inside g R c1 \/ inside g (notry R) c1) /\ scope_run g S0 R t0 sched' c1) \/
+    ((left_scope g R c1 \/ left_scope g (notry R) c1) /\ tl_find g (tls (sh c1)) = t0)
   end.
 
 (* the invariants that carry the induction *)
@@ -944,60 +1015,95 @@ Definition inside_ok (g : gid) (R : list frame) (t0 : option table) (c : config)
   exists st X, nth_error (gs c) g = Some st /\ g_stack st = X ++ R /\ X <> [] /\ inner X /\
                tbl_after X (tl_find g (tls (sh c))) = t0.
 
+Lemma notry_inner : forall X, inner X -> inner (notry X).
+Proof.
+  induction X as [|f X IH]; intros Hi; cbn [notry]; [exact Hi|].
+  apply inner_cons in Hi. destruct Hi as [Hf Hi].
+  destruct f; try discriminate; try (apply inner_cons; split; [reflexivity|apply IH; exact Hi]).
+  apply IH; exact Hi.
+Qed.
+
+(* one step of g itself, its stack being f :: K0 with the continuation of f lying X' above R *)
+Lemma inside_step g R t0 c st f K0 X' :
+  Inv c -> nth_error (gs c) g = Some st -> g_stack st = f :: K0 -> is_inner f = true ->
+  ktail f K0 = X' ++ R -> inner X' -> tbl_after X' (tbl_after [f] (tl_find g (tls (sh c)))) = t0 ->
+  (inside_ok g R t0 (step g c) \/ inside_ok g (notry R) t0 (step g c)) \/
+  ((left_scope g R (step g c) \/ left_scope g (notry R) (step g c)) /\ tl_find g (tls (sh (step g c))) = t0).
+Proof.
+  intros HI Eg EK Hf Ekt HiX' Ht.
+  pose proof HI as [Hlen Hg].
+  assert (Hlt : g < length (tls (sh c))) by (rewrite Hlen; eapply nth_error_lt; eauto).
+  destruct (Hg g st Eg) as [Hst Htr].
+  pose proof (step_g_ok g (sh c) st Hlt Hst Htr) as S.
+  destruct (step_self g c st HI Eg) as [Eg1 Et1].
+  destruct (step_g g (sh c) st) as [[s1 st1] sp]. cbn [fst snd] in Eg1, Et1.
+  destruct S as (_ & _ & _ & _ & Shape).
+  destruct (Shape f K0 EK Hf) as (b & X1 & K1 & Er & Hi1 & Ht1 & HK1).
+  (* in both cases the new stack is resume b (X1 ++ Y ++ R') with R' = R or notry R and Y as transparent as X' *)
+  assert (Hcase : exists Y R', K1 = Y ++ R' /\ inner Y /\ (forall cur, tbl_after Y cur = tbl_after X' cur) /\
+                               (R' = R \/ R' = notry R)).
+  { destruct HK1 as [->| ->]; rewrite Ekt.
+    - exists X', R. splits; auto.
+    - exists (notry X'), (notry R). rewrite notry_app. splits; auto; [apply notry_inner; exact HiX'|apply notry_after]. }
+  destruct Hcase as (Y & R' & -> & HiY & HtY & HR').
+  rewrite app_assoc in Er.
+  assert (Hi2 : inner (X1 ++ Y)) by (apply inner_app; auto).
+  destruct (resume_app_cases b (X1 ++ Y) R' Hi2) as [(pn & X2 & E & Hn & HiX2 & HtX2)|(b' & E & HtX)].
+  - left. assert (HIn : inside_ok g R' t0 (step g c)).
+    { exists st1, X2. rewrite E in Er. inversion Er. splits; auto.
+      rewrite Et1, HtX2, tbl_after_app, Ht1, HtY. exact Ht. }
+    destruct HR' as [->| ->]; auto.
+  - right. split.
+    + assert (HL : left_scope g R' (step g c)).
+      { exists st1, b'. split; [exact Eg1|]. rewrite Er. exact E. }
+      destruct HR' as [->| ->]; auto.
+    + rewrite Et1. rewrite <- Ht, <- HtY, <- Ht1. rewrite <- tbl_after_app. symmetry. apply HtX.
+Qed.
+
+Lemma inside_ok_step g R t0 h c :
+  Inv c -> inside_ok g R t0 c ->
+  (inside_ok g R t0 (step h c) \/ inside_ok g (notry R) t0 (step h c)) \/
+  ((left_scope g R (step h c) \/ left_scope g (notry R) (step h c)) /\ tl_find g (tls (sh (step h c))) = t0).
+Proof.
+  intros HI (st & X & Eg & EK & Hn & Hi & Et).
+  destruct (Nat.eq_dec h g) as [->|Hne].
+  - destruct X as [|f X']; [congruence|]. apply inner_cons in Hi. destruct Hi as [Hf HiX'].
+    cbn [app] in EK.
+    destruct f as [env' ps'|xs'| |cfo|cl]; try discriminate.
+    + destruct ps' as [|p' ps'].
+      * apply (inside_step g R t0 c st (KSeq env' []) (X' ++ R) X' HI Eg EK eq_refl eq_refl HiX' Et).
+      * assert (Hi' : inner (KSeq env' ps' :: X')) by (apply inner_cons; auto).
+        apply (inside_step g R t0 c st (KSeq env' (p' :: ps')) (X' ++ R) (KSeq env' ps' :: X') HI Eg EK eq_refl eq_refl Hi' Et).
+    + apply (inside_step g R t0 c st (KDefer xs') (X' ++ R) X' HI Eg EK eq_refl eq_refl HiX' Et).
+    + apply (inside_step g R t0 c st KTry (X' ++ R) X' HI Eg EK eq_refl eq_refl HiX' Et).
+  - left. left. destruct (step_other g h c st HI Hne Eg) as [E1 E2]. exists st, X. rewrite E2. splits; auto.
+Qed.
+
 Lemma scope_step g env p ps K t0 h c :
   let S0 := KSeq env (p :: ps) :: K in let R := KSeq env ps :: K in
-  Inv c -> start_ok g S0 t0 c \/ inside_ok g R t0 c ->
-  (start_ok g S0 t0 (step h c) \/ inside_ok g R t0 (step h c)) \/
-  (left_scope g R (step h c) /\ tl_find g (tls (sh (step h c))) = t0).
+  Inv c -> start_ok g S0 t0 c \/ inside_ok g R t0 c \/ inside_ok g (notry R) t0 c ->
+  (start_ok g S0 t0 (step h c) \/ inside_ok g R t0 (step h c) \/ inside_ok g (notry R) t0 (step h c)) \/
+  ((left_scope g R (step h c) \/ left_scope g (notry R) (step h c)) /\ tl_find g (tls (sh (step h c))) = t0).
 Proof.
   intros S0 R HI Hc.
-  destruct (Nat.eq_dec h g) as [->|Hne].
-  - (* goroutine g itself moves *)
-    assert (Hgen : forall st f K0 X', nth_error (gs c) g = Some st -> g_stack st = f :: K0 -> is_inner f = true ->
-              ktail f K0 = X' ++ R -> inner X' -> tbl_after X' (tbl_after [f] (tl_find g (tls (sh c)))) = t0 ->
-              inside_ok g R t0 (step g c) \/ (left_scope g R (step g c) /\ tl_find g (tls (sh (step g c))) = t0)).
-    { intros st f K0 X' Eg EK Hf Ekt HiX' Ht.
-      pose proof HI as [Hlen Hg].
-      assert (Hlt : g < length (tls (sh c))) by (rewrite Hlen; eapply nth_error_lt; eauto).
-      destruct (Hg g st Eg) as [Hst Htr].
-      pose proof (step_g_ok g (sh c) st Hlt Hst Htr) as S.
-      destruct (step_self g c st HI Eg) as [Eg1 Et1].
-      destruct (step_g g (sh c) st) as [[s1 st1] sp]. cbn [fst snd] in Eg1, Et1.
-      destruct S as (_ & _ & _ & _ & Shape).
-      destruct (Shape f K0 EK Hf) as (b & X1 & Er & Hi1 & Ht1).
-      rewrite Ekt, app_assoc in Er.
-      assert (Hi2 : inner (X1 ++ X')) by (apply inner_app; auto).
-      destruct (resume_app_cases b (X1 ++ X') R Hi2) as [(pn & X2 & E & Hn & HiX2 & HtX2)|(b' & E & HtX)].
-      - left. exists st1, X2. rewrite E in Er. inversion Er. splits; auto.
-        rewrite Et1, HtX2, tbl_after_app, Ht1. exact Ht.
-      - right. split.
-        + exists st1, b'. split; [exact Eg1|]. rewrite Er. exact E.
-        + rewrite Et1. rewrite <- Ht, <- Ht1. rewrite <- tbl_after_app. symmetry. apply HtX. }
-    destruct Hc as [(st & Eg & EK & Et)|(st & X & Eg & EK & Hn & Hi & Et)].
-    + destruct (Hgen st (KSeq env (p :: ps)) K [] Eg EK eq_refl eq_refl eq_refl) as [H|H]; auto.
-    + destruct X as [|f X']; [congruence|]. apply inner_cons in Hi. destruct Hi as [Hf HiX'].
-      cbn [app] in EK.
-      destruct f as [env' ps'|xs'| |cfo|cl]; try discriminate.
-      * destruct ps' as [|p' ps'].
-        -- destruct (Hgen st (KSeq env' []) (X' ++ R) X' Eg EK eq_refl eq_refl HiX') as [H|H]; auto.
-        -- assert (Hi' : inner (KSeq env' ps' :: X')) by (apply inner_cons; auto).
-           destruct (Hgen st (KSeq env' (p' :: ps')) (X' ++ R) (KSeq env' ps' :: X') Eg EK eq_refl eq_refl Hi') as [H|H]; auto.
-      * destruct (Hgen st (KDefer xs') (X' ++ R) X' Eg EK eq_refl eq_refl HiX') as [H|H]; auto.
-      * destruct (Hgen st KTry (X' ++ R) X' Eg EK eq_refl eq_refl HiX') as [H|H]; auto.
-  - (* another goroutine moves *)
-    left. destruct Hc as [(st & Eg & EK & Et)|(st & X & Eg & EK & Hn & Hi & Et)].
-    + left. destruct (step_other g h c st HI Hne Eg) as [E1 E2]. exists st. rewrite E2. auto.
-    + right. destruct (step_other g h c st HI Hne Eg) as [E1 E2]. exists st, X. rewrite E2. splits; auto.
+  destruct Hc as [(st & Eg & EK & Et)|[Hin|Hin]].
+  - destruct (Nat.eq_dec h g) as [->|Hne].
+    + destruct (inside_step g R t0 c st (KSeq env (p :: ps)) K [] HI Eg EK eq_refl eq_refl eq_refl Et) as [[H|H]|H]; auto.
+    + left. left. destruct (step_other g h c st HI Hne Eg) as [E1 E2]. exists st. rewrite E2. auto.
+  - destruct (inside_ok_step g R t0 h c HI Hin) as [[H|H]|H]; auto.
+  - pose proof (inside_ok_step g (notry R) t0 h c HI Hin) as H. rewrite notry_idem in H.
+    destruct H as [[H|H]|[[H|H] Ht]]; auto.
 Qed.
 
 Lemma scope_run_gen g env p ps K t0 : forall sched c,
   let S0 := KSeq env (p :: ps) :: K in let R := KSeq env ps :: K in
-  Inv c -> start_ok g S0 t0 c \/ inside_ok g R t0 c -> scope_run g S0 R t0 sched c.
+  Inv c -> start_ok g S0 t0 c \/ inside_ok g R t0 c \/ inside_ok g (notry R) t0 c -> scope_run g S0 R t0 sched c.
 Proof.
   induction sched as [|h sched IH]; intros c S0 R HI Hc; cbn [scope_run]; [exact I|].
   destruct (scope_step g env p ps K t0 h c HI Hc) as [Hs|Hl].
   - left. split.
-    + destruct Hs as [(st & Eg & EK & _)|(st & X & Eg & EK & Hn & Hi & _)]; [left; exists st; auto|right; exists st, X; auto].
+    + destruct Hs as [(st & Eg & EK & _)|[(st & X & Eg & EK & Hn & Hi & _)|(st & X & Eg & EK & Hn & Hi & _)]];
+        [left; exists st; auto|right; left; exists st, X; auto|right; right; exists st, X; auto].
     + apply IH; [apply step_inv; exact HI|exact Hs].
   - right. exact Hl.
 Qed.
@@ -1156,7 +1262,7 @@ Lemma exec_stmt_view g t env p s s' :
   g < length t -> view g t s s' -> res_view g t (exec_stmt g env p s) (exec_stmt 0 env p s').
 Proof.
   intros Hg Hv. pose proof Hv as (A & B & C).
-  destruct p as [lbl try body|lbl ce body|lbl le body|lbl body|lbl body|body|body|k v|k|l| |lbl le|n v|lbl| ];
+  destruct p as [lbl try body|lbl ce body|lbl le body|lbl body|lbl body|body|body|k v|k|l| |lbl le|n v|lbl| | ];
     cbn [exec_stmt].
   - (* PDo *)
     set (root := {| c_label := unknown_label; c_loader := 0; c_stack := []; c_vars := [] |}).
@@ -1233,6 +1339,7 @@ Proof.
   - (* PObserve *)
     repeat split; auto. cbn [r_events]. unfold observe. rewrite (tv_get g t _ _ Hg C), <- A, <- B. reflexivity.
   - (* PPanic *) apply res_view_raise; auto.
+  - (* PGoexit *) apply res_view_raise; auto.
 Qed.
 
 (* one step of goroutine g on the shared table = the same step on a private one-entry table *)
@@ -1248,7 +1355,7 @@ Proof.
     + destruct (resume (g_panic st) K) as [pn K']. cbn [fst snd]. auto.
     + destruct (exec_stmt_view g t env p s s' Hg Hv) as (V & E1 & E2 & E3 & E4).
       rewrite E1, E2, E3, E4.
-      destruct (resume (r_panic (exec_stmt 0 env p s')) (r_push (exec_stmt 0 env p s') ++ KSeq env ps :: K)) as [pn K'].
+      destruct (resume (r_panic (exec_stmt 0 env p s')) (r_push (exec_stmt 0 env p s') ++ KSeq env ps :: exit_stack p K)) as [pn K'].
       cbn [fst snd]. auto.
   - destruct (run_dacts_view g t xs s s' Hg Hv) as [V E].
     destruct (run_dacts g xs s) as [s1 evs], (run_dacts 0 xs s') as [s1' evs']. cbn [fst snd] in V, E. subst evs'.
